@@ -85,7 +85,7 @@ exception Unmodelled of string
 
 let mtype_of_code = function
   | "V" -> MsgVote | "W" -> MsgVoteResp | "A" -> MsgApp | "B" -> MsgAppResp
-  | "H" -> MsgHeartbeat | "I" -> MsgHeartbeatResp
+  | "H" -> MsgHeartbeat | "I" -> MsgHeartbeatResp | "S" -> MsgSnap
   | c -> raise (Unmodelled c)
 
 (* <type> <from> <to> <term> <logterm> <index> <commit> <reject> <nents> (t p)* *)
@@ -116,6 +116,7 @@ let proj_str (p : nproj) : string =
 
 let mtype_code = function
   | MsgVote -> "V" | MsgVoteResp -> "W" | MsgApp -> "A" | MsgAppResp -> "B" | MsgHeartbeat -> "H" | MsgHeartbeatResp -> "I"
+  | MsgSnap -> "S"
 
 let msg_str (m : msg) : string =
   Printf.sprintf "%s %d %d %d %d %d %d %d %s" (mtype_code m.m_type) (int_of_nat m.m_from) (int_of_nat m.m_to)
@@ -165,6 +166,7 @@ let run_trace infile outfile =
     let x = ref (normalize n x_init) in
     let prev = Array.make (n + 1) (proj_of init_node) in
     let elections = ref 0 and commits = ref 0 and truncs = ref 0 and restarts = ref 0 and maxterm = ref 0 and maxcommit = ref 0 in
+    let compactions = ref 0 and snapshots = ref 0 in
     let evtext = Buffer.create 4096 in
     let fail = ref None in
     let idx = ref 0 in
@@ -185,6 +187,7 @@ let run_trace infile outfile =
                 | "C" -> [EvCampaign]
                 | "P" -> [EvPropose (nat_of_int (int_of_string (List.hd g.g_args)))]
                 | "T" -> [EvTick; EvCampaign]
+                | "K" | "SR" -> [EvTick]   (* compaction / snapshot-status report: no modelled state changes *)
                 | "R" -> [EvRestart]
                 | "D" | "DD" -> [EvRecv (msg_of_tokens g.g_args)]
                 | "FP" -> (match g.g_args with _ :: _ :: _ :: p :: _ -> [EvPropose (nat_of_int (int_of_string p))] | _ -> failwith "bad FP")
@@ -220,6 +223,8 @@ let run_trace infile outfile =
               if int_of_nat obs.p_commit > int_of_nat p0.p_commit then incr commits;
               if not (is_prefix p0.p_log obs.p_log) then incr truncs;
               if base = "R" then incr restarts;
+              if base = "K" then incr compactions;
+              if (base = "D" || base = "DD") && (match g.g_args with "S" :: _ -> true | _ -> false) then incr snapshots;
               maxterm := max !maxterm (int_of_nat obs.p_term);
               maxcommit := max !maxcommit (int_of_nat obs.p_commit);
               prev.(g.g_id) <- obs;
@@ -232,8 +237,8 @@ let run_trace infile outfile =
     (match !fail with
      | Some f -> Printf.fprintf oc "S %s FAIL %s\n" !cur_k f
      | None ->
-       Printf.fprintf oc "S %s OK events=%d nodes=%d elections=%d commits=%d truncs=%d restarts=%d maxterm=%d maxcommit=%d hash=%s\n"
-         !cur_k !idx n !elections !commits !truncs !restarts !maxterm !maxcommit (Digest.to_hex (Digest.string (!header ^ Buffer.contents evtext)))) in
+       Printf.fprintf oc "S %s OK events=%d nodes=%d elections=%d commits=%d truncs=%d restarts=%d compactions=%d snapshots=%d maxterm=%d maxcommit=%d hash=%s\n"
+         !cur_k !idx n !elections !commits !truncs !restarts !compactions !snapshots !maxterm !maxcommit (Digest.to_hex (Digest.string (!header ^ Buffer.contents evtext)))) in
   List.iter (fun l ->
       match split_ws l with
       | ["SCHEDULE"; k] -> cur_k := k; groups := []; cur := None
